@@ -206,6 +206,7 @@ func (r *Run) c16Scenario(i int) {
 	respCount := map[string]int{}
 	var anns []annObs
 	closedAnnounce := false
+	var lateAny atomic.Bool
 	conn.onWrite = func(w written) {
 		d := parseDgram(w)
 		if !d.ok || d.y != "q" {
@@ -281,6 +282,11 @@ func (r *Run) c16Scenario(i int) {
 				if forged != nil {
 					conn.inject(forged, forger.addr)
 					conn.waitIdle(2 * time.Second)
+				}
+				if time.Since(w.At) > 100*time.Millisecond {
+					// on a loaded machine the answer reaches the node close to (or after) the query's time-out: whether
+					// it still counts is a matter of timing, not of the property
+					lateAny.Store(true)
 				}
 				mu.Lock()
 				if reply.get("r") != nil {
@@ -445,7 +451,10 @@ func (r *Run) c16Scenario(i int) {
 	if !doAnnounce && len(anns) > 0 {
 		viol("announce_peer sent although announcing was not requested")
 	}
-	if doAnnounce && closeMode < 2 {
+	if lateAny.Load() {
+		r.hist("ambiguous-timing/answer-later-than-100ms")
+	}
+	if doAnnounce && closeMode < 2 && !lateAny.Load() {
 		// ran to completion: exactly the K nearest token-bearing responders
 		want := len(eligible)
 		if want > 8 {
@@ -487,7 +496,7 @@ func (r *Run) c16Scenario(i int) {
 				viol(fmt.Sprintf("get_peers response from %s delivered %d times", k, c))
 			}
 		}
-		if closeMode < 2 {
+		if closeMode < 2 && !lateAny.Load() {
 			for _, sn := range nodes {
 				if sn.asked && sn.mode <= 2 {
 					if delivered[sn.addr.String()+"|"+hx(sn.id[:])] != 1 {
